@@ -1142,5 +1142,28 @@ def judge(spec, sched, reported_buffers=None, reported_indicators=None, from_mod
     # ---- indicators -------------------------------------------------------------------------
     if reported_indicators is not None:
         judge_indicators(spec, v, vd, reported_indicators)
+    else:
+        # candidate mode: indicator constraints restrict the valid schedules through the documented value
+        byid = {i["id"]: i for i in spec.get("indicators", [])}
+        for c in spec.get("constraints", []):
+            if c["type"] not in ("IndicatorTarget", "IndicatorBounds") or c.get("optional"):
+                continue
+            rng = indicator_value(byid[c["ind"]], v, spec)
+            if rng is None or rng[0] != rng[1] or rng[0].denominator != 1:
+                if rng is not None and c["type"] == "IndicatorBounds":
+                    lo_ok = c.get("lo") is None or rng[0] >= c["lo"]
+                    hi_ok = c.get("hi") is None or rng[1] <= c["hi"]
+                    lo_no = c.get("lo") is not None and rng[1] + 1 <= c["lo"]
+                    hi_no = c.get("hi") is not None and rng[0] - 1 >= c["hi"]
+                    vd.add("IND", "bounds", c.get("name"), T if (lo_ok and hi_ok and rng[0] == rng[1]) else (F if (lo_no or hi_no) else U))
+                else:
+                    vd.add("IND", "target", c.get("name"), U)
+                continue
+            val = int(rng[0])
+            if c["type"] == "IndicatorTarget":
+                vd.add("IND", "target", c.get("name"), tv(val == c["value"]), val)
+            else:
+                ok = (c.get("lo") is None or val >= c["lo"]) and (c.get("hi") is None or val <= c["hi"])
+                vd.add("IND", "bounds", c.get("name"), tv(ok), val)
     vd.view = v
     return vd
